@@ -1,9 +1,18 @@
 #!/venv/bin/python
-"""Print LOG.md rows for the filed seeds with the given indices: tools/logrows.py 9 10"""
+"""Print LOG.md rows for the filed seeds with the given indices: tools/logrows.py 9 10
+or for every filed seed that has no row in seeded/LOG.md yet: tools/logrows.py --missing"""
 import json, os, sys
 here = os.path.dirname(os.path.dirname(os.path.abspath(__file__)))
+log = open(os.path.join(here, 'seeded', 'LOG.md')).read()
+ks = sys.argv[1:]
 for p in ['C%02d' % i for i in range(1, 21)]:
-    for k in sys.argv[1:]:
+    if ks == ['--missing']:
+        import glob
+        mine = sorted(int(d.rsplit('-', 1)[1]) for d in glob.glob(os.path.join(here, 'seeded', p + '-*')))
+        sel = [str(k) for k in mine if '| %s-%d |' % (p, k) not in log]
+    else:
+        sel = ks
+    for k in sel:
         f = os.path.join(here, 'seeded', '%s-%s' % (p, k), 'meta.json')
         if not os.path.exists(f):
             continue
